@@ -243,6 +243,9 @@ def run(ctx):
     from .c02 import rule_lookahead_truncation
     rule_lookahead_truncation(ctx, _aut, rid="R14.9")
 
+    # ------------------------------------------------------------------ R14.10 (generic, scoped to this property's anchors)
+    sm.rule_named_plumbing(ctx, mir, "C14", "R14.10", floor=30)
+
     ctx.not_decided += ["that the decoder's `read` counts are right (encoding_rs)", "non-overlap of successive tokens as a run-time relation"]
     return ("Offset-carrying clauses: where document offsets are added (lexeme, attributes), who advances the document offset and by what, "
             "type-driven Align completeness, length preservation of modified tokens, and the contiguity protocol of text-chunk locations "
